@@ -404,6 +404,20 @@ def _shallowcopy(sk, n, x):
     return x
 
 
+OPERATOR_FUNCS = {'mul': o.mul, 'add': o.add, 'sub': o.sub, 'truediv': o.truediv, 'floordiv': o.floordiv, 'mod': o.mod, 'pow': o.pow}
+
+
+def operator_func(name):
+    """operator.mul and friends: the interpreter's own arithmetic on two operands"""
+    op = OPERATOR_FUNCS[name]
+
+    def g(sk, n, a, b):
+        if isinstance(a, Tok) or isinstance(b, Tok) or sk.exact:
+            return sk.arith(op, a, b, n)
+        return op(a, b)
+    return Py(g, 'operator.' + name)
+
+
 def _reduce(sk, n, f, seq, *init):
     items = list(sk.iterate(seq, n))
     if init:
@@ -478,6 +492,8 @@ class SK(object):
                 return BUILTINS['shallowcopy']
             if imp[1] in ('functools.reduce',):
                 return BUILTINS['reduce']
+            if imp[1].startswith('operator.') and imp[1].split('.', 1)[1] in OPERATOR_FUNCS:
+                return operator_func(imp[1].split('.', 1)[1])
             if imp[1] == 'functools.partial':
                 return BUILTINS['partial']
             if imp[1] in ('bisect.bisect_left', 'bisect.bisect_right', 'bisect.bisect'):
@@ -544,6 +560,12 @@ class SK(object):
                     return Py(lambda sk, node, data, **k: ('json-document', _plain(data)), 'json.dumps')
                 return Py(lambda sk, node, doc, **k: _plain(doc[1]) if isinstance(doc, tuple) and len(doc) == 2 and doc[0] == 'json-document'
                           else (_ for _ in ()).throw(Unsupported('json.loads of a text that json.dumps did not produce')), 'json.loads')
+            if b.name == 'ext:operator' and e.attr in OPERATOR_FUNCS:
+                return operator_func(e.attr)
+            if b.name == 'ext:functools' and e.attr == 'reduce':
+                return BUILTINS['reduce']
+            if b.name == 'ext:functools' and e.attr == 'partial':
+                return BUILTINS['partial']
             if b.name == 'ext:os' and e.attr == 'path':
                 return ModRef('ext:os.path')
             if b.name == 'ext:os.path' and e.attr in ('splitext', 'basename', 'dirname', 'join'):
@@ -1392,10 +1414,12 @@ def _bisect(right):
     def g(sk, n, a, x, lo=0, hi=None):
         def key(v):
             if isinstance(v, Ord):
-                return v.rank
+                base = round(v.rank) if abs(v.rank - round(v.rank)) < NEAR else v.rank
+                d = v.rank - base
+                return (base, ((d > 0) - (d < 0)) * 10 ** -12 + v.off)        # the order order_compare decides
             if isinstance(v, Tok):
                 raise Unsupported('bisect over abstract floats without an order')
-            return v
+            return (v, 0.0) if any(isinstance(w, Ord) for w in a) or isinstance(x, Ord) else v
         import bisect as _b
         keys = [key(v) for v in a]
         hi = len(keys) if hi is None else hi
